@@ -737,6 +737,10 @@ class ExceptTranslator(pytolean.Translator):
             if rng:
                 notes.append(f"`{ident(x)}`: the statements `if {rng[0]['first']}: …` ({len(rng[0]['args'])} inputs: {', '.join(rng[0]['args'])}), NOT "
                              f"translated — a function parameter whose assumed behaviour is the hand-written model of that branch")
+            elif not any(isinstance(n, ast.Call) and isinstance(n.func, ast.Name) and n.func.id == x for n in ast.walk(fn)) and \
+                    [f for f, ps in self.presigs.items() if any(x == y for y, _ in ps["exts"])]:
+                via = [ps["lean"] for f, ps in self.presigs.items() if any(x == y for y, _ in ps["exts"])]
+                notes.append(f"`{ident(x)}`: an external parameter of the translated `{via[0]}`, handed on")
             else:
                 notes.append(f"`{ident(x)}`: the function `{x}`, NOT translated — a parameter (the obligation instantiates it with the model's "
                              f"counterpart, the differential run with CPython's results)")
